@@ -234,6 +234,11 @@ func (c *FnCtx) callFunc(st *State, fn *types.Func, sig *types.Signature, recv *
 		c.trusted["external contract: "+fn.FullName()] = true
 		return h(c, st, call, recv, args)
 	}
+	if recv != nil && recvT != nil && isIfaceType(recvT) && recv.K == KIfc && c.dispatchDepth < 2 {
+		if v, ok := c.dispatchCall(st, fn, sig, recv, recvT, args, call); ok {
+			return v
+		}
+	}
 	if d, ok := c.eng.decls[fn]; ok && d.decl.Body != nil {
 		rec := false
 		for _, s := range c.inlineStack {
@@ -384,6 +389,30 @@ func (c *FnCtx) callByContract(st *State, fs *FuncSpec, sig *types.Signature, re
 		}
 	}
 	pre := &SpecScope{c: c, cur: st, old: nil, vars: vars}
+	ghostIn := map[string]string{}
+	for _, g := range fs.GhostFns {
+		if !g.In {
+			continue
+		}
+		bound := false
+		if c.spec != nil {
+			for _, cg := range c.spec.GhostFns {
+				if cg.Name == g.Name {
+					ghostIn[g.Name] = c.heapSym(st, "G_"+g.Name, "Int", 1)
+					bound = true
+				}
+			}
+		}
+		if !bound {
+			c.nfresh++
+			sym := fmt.Sprintf("G_%s_%s_%d", smtName(fs.keyTail()), g.Name, c.nfresh)
+			c.declare(sym, []string{"Int"}, "Int")
+			ghostIn[g.Name] = sym
+		}
+	}
+	if len(ghostIn) > 0 {
+		pre.ghostOverride = ghostIn
+	}
 	for i, r := range fs.Requires {
 		t := pre.boolOf(r.Expr)
 		c.obligeNamed(st, "pre", "", t, fmt.Sprintf("precondition #%d of %s: %s", i+1, key, r.Src), pos)
@@ -482,12 +511,19 @@ func (c *FnCtx) callByContract(st *State, fs *FuncSpec, sig *types.Signature, re
 	if len(fs.GhostFns) > 0 {
 		post.ghostOverride = map[string]string{}
 		for _, g := range fs.GhostFns {
+			if g.In {
+				post.ghostOverride[g.Name] = ghostIn[g.Name]
+				continue
+			}
 			c.nfresh++
 			sym := fmt.Sprintf("G_%s_%s_%d", smtName(fs.keyTail()), g.Name, c.nfresh)
 			c.declare(sym, []string{"Int"}, "Int")
 			post.ghostOverride[g.Name] = sym
 			c.ghostFns[fs.keyTail()+"_"+g.Name] = sym
 		}
+	}
+	for _, d := range fs.Defines {
+		c.assume(st, post.boolOf(d.Expr))
 	}
 	for _, e := range fs.Ensures {
 		if e.Local {
@@ -743,4 +779,97 @@ func (c *FnCtx) evalAppend(st *State, call *ast.CallExpr) Val {
 		}
 	}
 	return mkSlice(R, O, newLen, C, elem, t)
+}
+
+// dispatchCall resolves an interface method call by cases over the known implementations.
+func (c *FnCtx) dispatchCall(st *State, fn *types.Func, sig *types.Signature, recv *Val, recvT types.Type, args []Val, call *ast.CallExpr) (Val, bool) {
+	it, ok := recvT.Underlying().(*types.Interface)
+	if !ok {
+		return Val{}, false
+	}
+	type impl struct {
+		t types.Type
+		m *types.Func
+	}
+	var impls []impl
+	for _, n := range c.w.named {
+		var t types.Type = n
+		if !types.Implements(t, it) {
+			t = types.NewPointer(n)
+			if !types.Implements(t, it) {
+				continue
+			}
+		}
+		ms := types.NewMethodSet(t)
+		sel := ms.Lookup(fn.Pkg(), fn.Name())
+		if sel == nil {
+			continue
+		}
+		m, ok := sel.Obj().(*types.Func)
+		if !ok {
+			continue
+		}
+		impls = append(impls, impl{t, m})
+	}
+	if len(impls) == 0 || len(impls) > 8 {
+		return Val{}, false
+	}
+	c.dispatchDepth++
+	defer func() { c.dispatchDepth-- }()
+	resT := resultType(sig)
+	nres := sig.Results().Len()
+	resObj := types.NewVar(call.Pos(), c.pkg.Types, fmt.Sprintf("dispatch%d", c.nfresh), types.Typ[types.Int])
+	c.nfresh++
+	var outs []*State
+	notKnown := "true"
+	for _, im := range impls {
+		cond := c.tagTest(recv.S, im.t)
+		notKnown = sAnd(notKnown, sNot(cond))
+		br := st.clone()
+		br.pc = c.define("pc", "Bool", sAnd(st.pc, cond))
+		pv := c.payload(recv.S, im.t)
+		pv.T = im.t
+		for _, f := range c.typeFacts(pv) {
+			c.assume(br, f)
+		}
+		msig := im.m.Type().(*types.Signature)
+		rv := pv
+		// value-receiver method reached through a pointer implementation
+		if p, isPtr := im.t.Underlying().(*types.Pointer); isPtr {
+			if _, wantPtr := msig.Recv().Type().Underlying().(*types.Pointer); !wantPtr {
+				rv = c.readPtr(br, p.Elem(), pv.S)
+			}
+		}
+		v := c.callFunc(br, im.m, msig, &rv, im.t, args, call)
+		if nres > 0 {
+			br.env[resObj] = v
+		}
+		outs = append(outs, br)
+	}
+	// foreign implementation
+	other := st.clone()
+	other.pc = c.define("pc", "Bool", sAnd(st.pc, notKnown))
+	if nres > 0 {
+		v := c.freshVal(resT, "res_"+fn.Name())
+		for _, f := range c.typeFacts(v) {
+			c.assume(other, f)
+		}
+		other.env[resObj] = v
+	}
+	c.unmodelled["call of "+fn.Name()+" on a receiver whose dynamic type is not one of the repository's implementations: result unconstrained"] = true
+	outs = append(outs, other)
+	m := c.merge(outs)
+	if m == nil {
+		st.pc = "false"
+		return c.freshVal(resT, "noreturn"), true
+	}
+	var res Val
+	if nres > 0 {
+		res = m.env[resObj]
+		delete(m.env, resObj)
+	} else {
+		res = Val{K: KUnit}
+	}
+	st.pc, st.heaps, st.alloc, st.env = m.pc, m.heaps, m.alloc, m.env
+	return res, true
 }
